@@ -93,6 +93,18 @@ func shapeTest(e edgeCond, v ssa.Value, recognised map[string]bool) (string, boo
 			if k, isK := constStr(c.Common().Args[1]); isK && recognised[k] && e.taken {
 				return fmt.Sprintf("HasPrefix(·, %q)", k), true
 			}
+			// an element of a package-level table all of whose entries are known prefixes
+			if tbl, ok := tableElems(c.Common().Args[1]); ok && e.taken {
+				all := len(tbl) > 0
+				for _, k := range tbl {
+					if !recognised[k] {
+						all = false
+					}
+				}
+				if all {
+					return fmt.Sprintf("HasPrefix(·, one of %q)", tbl), true
+				}
+			}
 		}
 	case *ssa.BinOp:
 		for _, pr := range [][2]ssa.Value{{c.X, c.Y}, {c.Y, c.X}} {
@@ -111,7 +123,7 @@ func shapeTest(e edgeCond, v ssa.Value, recognised map[string]bool) (string, boo
 
 func checkUserRuleSyntax(p *Prog, r *Report) {
 	rule := "C13/USER-RULE-SYNTAX"
-	r.Rule(rule, "parseFilter takes a line without a known prefix for a literal exclude pattern (needed for protocol-27 peers, which send excludes bare); so every rule text the option parser appends to Options.filterRules is either a constant known prefix + the argument, or — on every path from where the argument is obtained to the append — has been tested to start with a prefix that parseFilter tests for (or to be empty); alternatively parseFilter itself returns a rule only on paths with a positive prefix test", 3)
+	r.Rule(rule, "parseFilter takes a line without a known prefix for a literal exclude pattern (needed for protocol-27 peers, which send excludes bare); so every rule text the option parser appends to Options.filterRules is either a constant known prefix + the argument, or — on every path from where the argument is obtained to the append — has been tested to start with a prefix that parseFilter tests for (or to be empty); alternatively parseFilter itself returns a rule only on paths with a positive prefix test; an append helper (prefix, arg) is judged at its call sites, a validator helper by its nil returns", 1)
 	pf := anchorFunc(p, r, pkgSender, "", "parseFilter")
 	fr := p.Field(pkgOpts, "Options", "filterRules")
 	if pf == nil || fr == nil {
@@ -208,6 +220,53 @@ func checkUserRuleSyntax(p *Prog, r *Report) {
 					if strict {
 						r.OK(rule, key, p.Pos(st.Pos()), "raw argument; parseFilter rejects lines without a known prefix")
 						continue
+					}
+					// prefix + arg with both from the helper's parameters: judged per call site
+					if bo, isBo := e.(*ssa.BinOp); isBo && bo.Op == token.ADD {
+						px, okX := bo.X.(*ssa.Parameter)
+						py, okY := bo.Y.(*ssa.Parameter)
+						if okX && okY && px.Parent() == fn && py.Parent() == fn {
+							ix, iy := -1, -1
+							for i, pp := range fn.Params {
+								if pp == px {
+									ix = i
+								}
+								if pp == py {
+									iy = i
+								}
+							}
+							g := p.ModGraph()
+							nSites, badSite := 0, ""
+							for _, ed := range g.In[fn] {
+								cs, isCS := ed.Site.(ssa.CallInstruction)
+								if isTestSupport(pkgPathOfFunc(ed.From)) {
+									continue
+								}
+								nSites++
+								if !isCS || ed.Escape || cs.Common().StaticCallee() != fn || ix >= len(cs.Common().Args) || iy >= len(cs.Common().Args) {
+									badSite = "a caller is not a direct call"
+									continue
+								}
+								k, isK := constStr(cs.Common().Args[ix])
+								switch {
+								case isK && recognised[k]:
+								case isK && k == "":
+									if _, okV := validatedAt(cs.Common().Args[iy], cs, recognised); !okV {
+										badSite = "the raw argument passed at " + p.Pos(instrPos(cs)) + " is not tested"
+									}
+								default:
+									badSite = "the prefix passed at " + p.Pos(instrPos(cs)) + " is not a known constant"
+								}
+							}
+							if nSites > 0 && badSite == "" {
+								r.OK(rule, key, p.Pos(st.Pos()), fmt.Sprintf("prefix + argument, %d call sites: a known constant prefix, or an empty prefix with a validated argument", nSites))
+								continue
+							}
+							if badSite != "" {
+								r.Bad(rule, key, p.Pos(st.Pos()), badSite+": unknown --filter syntax is taken for a literal exclude pattern (silently different selection)")
+								continue
+							}
+						}
 					}
 					def, isInstr := e.(ssa.Instruction)
 					if !isInstr || def.Block() == nil {
@@ -327,4 +386,134 @@ func checkAnchoredDecided(p *Prog, r *Report) {
 		})
 	}
 	r.Cond(decided, rule, "leading slash of a pattern is decided in rule construction", where, why)
+}
+
+// tableElems: v is an element of a package-level []string variable that is
+// assigned exactly once, in the package initialiser, from a literal of
+// constants; returns the constants.
+func tableElems(v ssa.Value) ([]string, bool) {
+	ld, ok := v.(*ssa.UnOp)
+	if !ok || ld.Op != token.MUL {
+		return nil, false
+	}
+	ia, ok := ld.X.(*ssa.IndexAddr)
+	if !ok {
+		return nil, false
+	}
+	sl, ok := ia.X.(*ssa.UnOp)
+	if !ok || sl.Op != token.MUL {
+		return nil, false
+	}
+	gl, ok := sl.X.(*ssa.Global)
+	if !ok || gl.Pkg == nil {
+		return nil, false
+	}
+	var out []string
+	stores := 0
+	for _, m := range gl.Pkg.Members {
+		fn, ok := m.(*ssa.Function)
+		if !ok {
+			continue
+		}
+		fns := append([]*ssa.Function{fn}, fn.AnonFuncs...)
+		for _, f := range fns {
+			for _, b := range f.Blocks {
+				for _, in := range b.Instrs {
+					st, ok := in.(*ssa.Store)
+					if !ok || st.Addr != ssa.Value(gl) {
+						continue
+					}
+					stores++
+					if f.Name() != "init" {
+						return nil, false
+					}
+					elems := variadicElems(st.Val)
+					if elems == nil {
+						return nil, false
+					}
+					for _, e := range elems {
+						k, ok := constStr(e)
+						if !ok {
+							return nil, false
+						}
+						out = append(out, k)
+					}
+				}
+			}
+		}
+	}
+	return out, stores == 1
+}
+
+// isRuleValidator: fn(rule string) error returns nil only on paths that carry
+// a positive shape test of its parameter.
+func isRuleValidator(fn *ssa.Function, recognised map[string]bool) bool {
+	if fn == nil || fn.Blocks == nil || len(fn.Params) != 1 || fn.Signature.Results().Len() != 1 || !isErrorType(fn.Signature.Results().At(0).Type()) {
+		return false
+	}
+	n := 0
+	for _, b := range fn.Blocks {
+		ret, ok := lastInstr(b).(*ssa.Return)
+		if !ok || !isNilConst(ret.Results[0]) {
+			continue
+		}
+		n++
+		paths, ok := pathsBetween(fn.Blocks[0], b, 512)
+		if !ok || len(paths) == 0 {
+			return false
+		}
+		for _, path := range paths {
+			has := false
+			for _, e := range path {
+				if _, t := shapeTest(e, ssa.Value(fn.Params[0]), recognised); t {
+					has = true
+				}
+			}
+			if !has {
+				return false
+			}
+		}
+	}
+	return n > 0
+}
+
+// validatedAt: the value v has a known shape when `at` executes: some path
+// test between its definition and `at`, or the nil-error edge of a validator
+// called on it dominates `at`.
+func validatedAt(v ssa.Value, at ssa.Instruction, recognised map[string]bool) (string, bool) {
+	fn := at.Parent()
+	for _, b := range fn.Blocks {
+		for _, in := range b.Instrs {
+			call, ok := in.(*ssa.Call)
+			if !ok || len(call.Common().Args) != 1 || call.Common().Args[0] != v {
+				continue
+			}
+			if !isRuleValidator(call.Common().StaticCallee(), recognised) {
+				continue
+			}
+			if known, isNil := errIsNilAt(at, call); known && isNil {
+				return "validated by " + funcKey(call.Common().StaticCallee()), true
+			}
+		}
+	}
+	def, isInstr := v.(ssa.Instruction)
+	if !isInstr || def.Block() == nil || def.Parent() != fn {
+		return "", false
+	}
+	paths, ok := pathsBetween(def.Block(), at.Block(), 512)
+	if !ok || len(paths) == 0 {
+		return "", false
+	}
+	for _, path := range paths {
+		has := false
+		for _, ec := range path {
+			if _, t := shapeTest(ec, v, recognised); t {
+				has = true
+			}
+		}
+		if !has {
+			return "", false
+		}
+	}
+	return "tested on every path", true
 }
